@@ -121,13 +121,14 @@ def _check_matrix(el, want, tri, what):
     for i in range(n):
         for j in (range(0, i + 1) if tri == "L" else range(i, n)):
             exp[(i + 1, j + 1)] = want[i][j]
-    if set(el) != set(exp):
-        miss = sorted(set(exp) - set(el))[:5]
+    # (an element that is not given is zero in SINEX: absent elements are accepted where the expected value is exactly 0)
+    if not set(el) <= set(exp) or any(exp[k] != 0.0 for k in set(exp) - set(el)):
+        miss = sorted(k for k in set(exp) - set(el) if exp[k] != 0.0)[:5]
         extra = sorted(set(el) - set(exp))[:5]
         raise Fail("%s: covariance block does not contain exactly the %s triangle of the remaining parameters" % (what, tri),
                    expected={"n": n}, observed={"missing": miss, "unexpected": extra}, bucket=what + " matrix shape")
     for k, v in exp.items():
-        if el[k] != v:
+        if el.get(k, 0.0) != v:
             raise Fail("%s: covariance element is not the original element of the remaining parameters" % what,
                        expected={"element": k, "value": v}, observed=el[k], bucket=what + " matrix values")
 
@@ -161,8 +162,8 @@ def _check_removal(case, spec, g, inp_lines, remove_codes, clock):
     inp = SX.parse("in.snx")
     # site ids / epochs: remaining lines unchanged
     for name, col in (("SITE/ID", (1, 5)), ("SOLUTION/EPOCHS", (1, 5))):
-        want = [ln for ln in inp["blocks"][name] if ln.startswith("*") or ln[col[0]:col[1]] not in remove_codes]
-        if out["blocks"][name] != want:
+        want = [ln for ln in SX.data(inp["blocks"][name]) if ln[col[0]:col[1]] not in remove_codes]
+        if SX.data(out["blocks"][name]) != want:
             raise Fail("remove_stns_sinex: %s block is not the input block minus the removed stations" % name,
                        expected=want[:6], observed=out["blocks"][name][:6], bucket=name + " lines")
     # estimates
